@@ -329,13 +329,115 @@ fn check_arcs(r: &mut Report) {
     } }
 }
 
+
+// ---------------------------------------------------------------- cached boxes of circles from EVERY producer
+/// the statement's clause for circles: the cached box contains the circle and touches it on all four sides, i.e. it is
+/// [cx - r, cx + r] x [cy - r, cy + r] for the centre and radius the circle REPORTS (center / ball are what every
+/// query uses); compared to relative 1e-12 (the box is a cached copy of one subtraction / addition)
+fn check_circle_box(r: &mut Report, c: &Circle2, producer: &str, what: &dyn Fn() -> String) {
+    let bb = c.aabb();
+    let (cx, cy, rad) = (c.center.x, c.center.y, c.ball.radius);
+    let tol = 1e-12 * (1.0 + rad.abs() + cx.abs() + cy.abs());
+    let ok = bb.mins.x.is_finite() && bb.mins.y.is_finite() && bb.maxs.x.is_finite() && bb.maxs.y.is_finite()
+        && (bb.mins.x - (cx - rad)).abs() <= tol && (bb.maxs.x - (cx + rad)).abs() <= tol
+        && (bb.mins.y - (cy - rad)).abs() <= tol && (bb.maxs.y - (cy + rad)).abs() <= tol;
+    r.check(ok, &format!("cached bounding box of a circle obtained from {} contains it and touches it on all four sides (box == centre +- r)", producer),
+        || format!("{} -> circle {:?}: cached box [{:?}, {:?}] x [{:?}, {:?}]", what(), cs(c), bb.mins.x, bb.maxs.x, bb.mins.y, bb.maxs.y));
+}
+
+fn check_circle_boxes(r: &mut Report) {
+    use crate::common::BestFit;
+    let centres = [(0.0, 0.0), (3.0, -2.0), (-50.0, 75.0), (5.0, -3.0), (1500.0, -2000.0)];
+    let radii = [0.0, 0.125, 1.0, 2.5, 7.5, 1000.0];
+    // ---- Circle2::new / from_point (and a copy / clone of the value)
+    for (cx, cy) in centres { for rad in radii {
+        r.case();
+        let a = Circle2::new(cx, cy, rad);
+        check_circle_box(r, &a, "Circle2::new", &|| format!("Circle2::new({:?}, {:?}, {:?})", cx, cy, rad));
+        let b = Circle2::from_point(p(cx, cy), rad);
+        check_circle_box(r, &b, "Circle2::from_point", &|| format!("Circle2::from_point(({:?}, {:?}), {:?})", cx, cy, rad));
+        let c = a.clone();
+        check_circle_box(r, &c, "a clone of a circle", &|| format!("Circle2::new({:?}, {:?}, {:?}).clone()", cx, cy, rad));
+    } }
+    // ---- Circle2::from_3_points: triples of the 12 integer points of the radius-5 circle, scaled and moved
+    let ring = [(5.0, 0.0), (4.0, 3.0), (3.0, 4.0), (0.0, 5.0), (-3.0, 4.0), (-4.0, 3.0), (-5.0, 0.0), (-4.0, -3.0), (-3.0, -4.0), (0.0, -5.0), (3.0, -4.0), (4.0, -3.0)];
+    for (cx, cy) in centres { for k in [0.5, 1.0, 3.0] {
+        for i in 0..12 { for j in 0..12 { for l in 0..12 {
+            if i == j || j == l || i == l || (i + 2 * j + 3 * l) % 5 != 0 { continue; } // every fifth triple
+            let q = |m: usize| p(cx + k * ring[m].0, cy + k * ring[m].1);
+            r.case();
+            let what = || format!("Circle2::from_3_points({:?}, {:?}, {:?})", (q(i).x, q(i).y), (q(j).x, q(j).y), (q(l).x, q(l).y));
+            match Circle2::from_3_points(q(i), q(j), q(l)) {
+                Ok(c) => {
+                    check_circle_box(r, &c, "Circle2::from_3_points", &what);
+                    r.check(near(&c.center, &p(cx, cy), 5.0 * k + cx.abs() + cy.abs()) && (c.r() - 5.0 * k).abs() <= 1e-7 * (1.0 + 5.0 * k + cx.abs() + cy.abs()), "from_3_points: the circle through three points of a known circle is that circle", &what);
+                }
+                Err(_) => r.check(false, "from_3_points: three distinct points of a circle are accepted", &what),
+            }
+        } } }
+    } }
+    // ---- Circle2::fitting_circle / fit_circle: sample points ON a known circle, initial guesses DIFFERENT from it
+    let mut fitted_differs = 0usize;
+    let mut fits = 0usize;
+    for (cx, cy, rad) in [(5.0, -3.0, 2.5), (0.0, 0.0, 1.0), (-50.0, 75.0, 7.5), (12.0, 9.0, 20.0)] {
+        for npts in [4usize, 7, 12, 36] {
+            // the sample: full turn and a 200-degree portion
+            for span in [2.0 * PI, 3.5] {
+                let pts: Vec<Point2> = (0..npts).map(|i| circle_pt(cx, cy, rad, 0.3 + span * i as f64 / npts as f64)).collect();
+                let guesses = [(cx - 1.0, cy + 1.0, rad * 0.4), (cx + 0.5 * rad, cy, rad), (cx, cy, rad * 1.5), (cx - 0.25 * rad, cy - 0.25 * rad, rad * 0.8), (cx + 0.125, cy - 0.0625, rad + 0.03125)];
+                for (gx, gy, gr) in guesses { for mode in [BestFit::All, BestFit::Gaussian(3.0)] { {
+                    let guess = Circle2::new(gx, gy, gr);
+                    r.case();
+                    // (fit_circle itself is private to geom2::circle2; fitting_circle is its only public entry)
+                    let (producer, got) = ("Circle2::fitting_circle (fit_circle)", Circle2::fitting_circle(&pts, &guess, mode));
+                    let what = || format!("{}({} points on circle ({:?}, {:?}, r {:?}) over {:?} rad from 0.3, guess {:?}, {:?})", producer, npts, cx, cy, rad, span, (gx, gy, gr), mode);
+                    // a failed fit (Err) returns no circle: nothing to check
+                    if let Ok(c) = got {
+                        fits += 1;
+                        if (c.x() - gx).abs() > 1e-3 || (c.y() - gy).abs() > 1e-3 || (c.r() - gr).abs() > 1e-3 { fitted_differs += 1; }
+                        check_circle_box(r, &c, producer, &what);
+                        r.check(fin(&c.center) && c.r().is_finite(), "fitted circle: no non-finite value", &what);
+                    }
+                } } }
+            }
+        }
+    }
+    r.check(fits >= 100 && fitted_differs * 2 >= fits, "coverage: the fits succeed and most fitted circles differ from their initial guess", || format!("{} successful fits, {} differ from the guess", fits, fitted_differs));
+    // ---- Circle2::ransac (fixed internal seed => deterministic): points of a circle plus a few outliers
+    for (cx, cy, rad) in [(5.0, -3.0, 2.5), (-50.0, 75.0, 7.5)] {
+        let mut pts: Vec<Point2> = (0..24).map(|i| circle_pt(cx, cy, rad, 2.0 * PI * i as f64 / 24.0)).collect();
+        pts.push(p(cx + 0.3 * rad, cy - 0.2 * rad)); pts.push(p(cx - 3.0 * rad, cy + 0.5 * rad)); pts.push(p(cx, cy));
+        for (it, lo, hi) in [(None, None, None), (Some(50), Some(0.5 * rad), Some(2.0 * rad)), (Some(200), None, Some(10.0 * rad))] {
+            r.case();
+            let what = || format!("Circle2::ransac(24 points of circle ({:?}, {:?}, r {:?}) + 3 outliers, tol 1e-3, {:?}, {:?}, {:?})", cx, cy, rad, it, lo, hi);
+            match Circle2::ransac(&pts, 1e-3, it, lo, hi) {
+                Ok(c) => check_circle_box(r, &c, "Circle2::ransac", &what),
+                Err(_) => r.check(false, "ransac: finds a candidate on points of a circle", &what),
+            }
+        }
+    }
+    // ---- the circles carried by arcs, and arcs made from circles
+    for (cx, cy) in centres { for rad in [0.25, 1.0, 7.5] { for a0 in [-2.9, 0.0, 0.3, 1.5707] { for sw in [-6.2, -1.7, 0.001, 0.3, 4.0] {
+        r.case();
+        let what = || format!("centre ({:?}, {:?}) r {:?} angle0 {:?} sweep {:?}", cx, cy, rad, a0, sw);
+        check_circle_box(r, &Arc2::circle_angles(p(cx, cy), rad, a0, sw).circle, "Arc2::circle_angles (field circle)", &what);
+        check_circle_box(r, &Arc2::circle_point_angle(p(cx, cy), rad, circle_pt(cx, cy, rad, a0), sw).circle, "Arc2::circle_point_angle (field circle)", &what);
+        let c = Circle2::new(cx, cy, rad);
+        check_circle_box(r, &c.to_partial_arc(a0, sw).circle, "Circle2::to_partial_arc (field circle)", &what);
+        check_circle_box(r, &c.to_arc().circle, "Circle2::to_arc (field circle)", &what);
+        let (q0, q1, q2) = (circle_pt(cx, cy, rad, a0), circle_pt(cx, cy, rad, a0 + 0.5 * sw), circle_pt(cx, cy, rad, a0 + sw));
+        if sw.abs() > 0.1 { check_circle_box(r, &Arc2::three_points(q0, q1, q2).circle, "Arc2::three_points (field circle)", &what); }
+    } } } }
+}
+
 pub fn run() -> Option<Report> {
-    let mut r = Report::new("circle pairs: 3 centres x 12 offsets (centre distances 0, 0.5, 1, 2, 3, 4, 5, 8, 10, 13, sqrt 2, ...) x 8 x 8 radii (separate, nested, internally / externally tangent, equal radii, concentric; within 1e-6 of tangency excluded unless exact); tangent points: 4 circles x 6 directions x d/r in {1+1e-9, 1+1e-6, 1.001, 1.1, sqrt 2, 2, 3, 10, 1e3} and points on / inside the perimeter; outer tangents: 2 centres x 10 offsets x 6 x 6 radii; segments: 4 circles x 40 segments (exactly tangent, chords, partial, inside, outside) in both senses, 3 polylines x 25 circles; three-point arcs: all ordered triples of the 12 integer points of the radius-5 circle x 3 centres; arcs: 3 centres x 3 radii x 18 start angles x 40 signed sweeps in [-2pi, 2pi] (box checked against both ends, the axis extremes inside the sweep and 720 samples)");
+    let mut r = Report::new("circle pairs: 3 centres x 12 offsets (centre distances 0, 0.5, 1, 2, 3, 4, 5, 8, 10, 13, sqrt 2, ...) x 8 x 8 radii (separate, nested, internally / externally tangent, equal radii, concentric; within 1e-6 of tangency excluded unless exact); tangent points: 4 circles x 6 directions x d/r in {1+1e-9, 1+1e-6, 1.001, 1.1, sqrt 2, 2, 3, 10, 1e3} and points on / inside the perimeter; outer tangents: 2 centres x 10 offsets x 6 x 6 radii; segments: 4 circles x 40 segments (exactly tangent, chords, partial, inside, outside) in both senses, 3 polylines x 25 circles; three-point arcs: all ordered triples of the 12 integer points of the radius-5 circle x 3 centres; arcs: 3 centres x 3 radii x 18 start angles x 40 signed sweeps in [-2pi, 2pi] (box checked against both ends, the axis extremes inside the sweep and 720 samples); cached boxes of circles from every producer: new / from_point / clone (5 centres x 6 radii), from_3_points (every fifth ordered triple of the 12 integer points of the radius-5 circle x 5 centres x 3 scales), fitting_circle -> fit_circle (4 circles x 4 / 7 / 12 / 36 exact samples over a full turn or 3.5 rad x 5 initial guesses different from the answer x BestFit::All / Gaussian(3)), ransac (2 circles, 24 points + 3 outliers, 3 parameter sets), the circle field of arcs from circle_angles / circle_point_angle / three_points / to_arc / to_partial_arc");
     check_circle_pairs(&mut r);
     check_tangent_points(&mut r);
     check_outer_tangents(&mut r);
     check_lines(&mut r);
     check_three_point_arcs(&mut r);
     check_arcs(&mut r);
+    check_circle_boxes(&mut r);
     Some(r)
 }
